@@ -109,3 +109,12 @@ func RunFindingExamples(t *testing.T, rec *evidence.Recorder, keys []string, opt
 		s.RemoveDir()
 	}
 }
+
+// LoadJSON reads a JSON file into v.
+func LoadJSON(path string, v any) error {
+	b, err := os.ReadFile(path)
+	if err != nil {
+		return err
+	}
+	return json.Unmarshal(b, v)
+}
